@@ -23,11 +23,12 @@ import verilog_oracles as O
 import verilog_mech as M
 import verilog_doc as D
 import verilog_wild as WILD
+import verilog_emit as E
 
-OWN_COQ = ['Fmt/VBits.v', 'Fmt/VExpr.v', 'Fmt/VDoc.v', 'Fmt/VTop.v', 'Fmt/VElab.v', 'Fmt/VSpec.v', 'Fmt/VSem.v', 'Proofs/VerilogLists.v', 'Proofs/VerilogSlice.v',
+OWN_COQ = ['Fmt/VBits.v', 'Fmt/VExpr.v', 'Fmt/VDoc.v', 'Fmt/VTop.v', 'Fmt/VElab.v', 'Fmt/VEmit.v', 'Fmt/VSpec.v', 'Fmt/VSem.v', 'Proofs/VerilogLists.v', 'Proofs/VerilogSlice.v',
            'Proofs/VerilogGrow.v', 'Proofs/VerilogPort.v', 'Proofs/VerilogAssign.v', 'Proofs/VerilogTop.v', 'Proofs/VElabBase.v', 'Proofs/VElabInv.v',
            'Proofs/VElabWf.v', 'Proofs/VElabExpr.v', 'Proofs/VElabConn.v', 'Proofs/VElabAssign.v', 'Proofs/VElabPorts.v', 'Proofs/VElabNets.v',
-           'Proofs/VElabTop.v', 'Proofs/VElabStable.v', 'Props/C04.v', 'Props/C06.v', 'Extract/ExtractVerilog.v']
+           'Proofs/VElabTop.v', 'Proofs/VElabStable.v', 'Proofs/VEmitRound.v', 'Proofs/VEmitLemmas.v', 'Props/C04.v', 'Props/C06.v', 'Extract/ExtractVerilog.v']
 CORPUS = os.path.join(common.CORPUS, 'verilog')
 EXAMPLES = os.path.join(common.REPO, 'example_netlists', 'verilog_netlists')
 QUICK_FILES = ['4bitadder', 'TMR_hierarchy', 'adder', 'b13', 'basic_clock_crossing', 'carrychain', 'fourBitCounter',
@@ -174,6 +175,8 @@ class Run:
         self.n_programs = 0
         self.reported = 0
         self.notes = []
+        self.emit = {'compared': 0, 'disagreements': 0, 'modules_compared': 0, 'rt_check true': 0, 'rt_check false': 0, 'writable': 0, 'reread_compared': 0, 'reread_outside_reader_model': collections.Counter(), 'constructs': collections.Counter(), 'outcomes': collections.Counter(),
+                     'skipped_outside_modelled_subset': collections.Counter(), 'skipped_not_expressible_as_nv': collections.Counter()}
         self.docq = []          # document-level correspondence: (source, design, real outcome)
         self.doc = {'compared': 0, 'disagreements': 0, 'unsupported': collections.Counter(), 'inexpressible': collections.Counter(),
                     'outcomes': collections.Counter(), 'wild_mutations': collections.Counter()}
@@ -303,6 +306,15 @@ class Run:
                 if o.get('definition_list') == 'work-modules':
                     o['definition_list'] = [d.name for lib in n.libraries if lib.name == 'work' for d in lib.definitions]
                 items, text, n2 = O.c04_items(n, o)
+                try:
+                    E.check(self, source, n, o, items, text, describe, n2)      # writer model (Fmt/VEmit.v) vs Composer
+                except Exception:  # noqa
+                    import traceback
+                    self.stats['emit-correspondence-crashed'] += 1
+                    if self.stats['emit-correspondence-crashed'] == 1:
+                        self.rep.violation('emit-crash', {'kind': 'correspondence-broken', 'level': 'document-writer',
+                                                          'what': 'the writer correspondence could not be carried out', 'source': source,
+                                                          'traceback': traceback.format_exc()[-3000:]}, found_input=False)
                 self.n_eval += 1
                 self.stats['c04 %s %s' % (tr, ','.join('%s' % k for k in sorted(opts)) or 'default')] += 1
                 if items:
@@ -488,9 +500,9 @@ def run(prop, tier, seed, replay):
         'trusted_base': [
             'Coq 8.16.1 kernel (coqc); vm_compute only inside Example witnesses; no axioms: every theorem of Props/%s.v prints "Closed under the global context"' % prop,
             'extraction: ExtrOcamlBasic only; nat/Z/positive extracted as inductives; ocaml/driver_verilog.ml (parsing/printing)',
-            'the models coq/theories/Fmt/VBits.v, VExpr.v, VTop.v, VElab.v are hand-written: tied to /repo only by the correspondence runs counted below (mechanism level and document level)',
+            'the models coq/theories/Fmt/VBits.v, VExpr.v, VTop.v, VElab.v, VEmit.v are hand-written: tied to /repo only by the correspondence runs counted below (mechanism level and document level)',
             'harness/verilog_gen.py (generator, independent writer, meaning of a design), harness/verilog_world.py (canonical description, WF), harness/verilog_oracles.py, harness/verilog_mech.py',
-            'character-level tokenisation (TokenFactory) and the recursive descent from tokens to the document value are NOT modelled in Coq: the generator produces the document value and its text together (harness/verilog_gen.py writer, harness/verilog_doc.py converter are trusted glue); the document-level WRITER is not modelled (C04: oracles on the implementation only)',
+            'character-level tokenisation (TokenFactory) and the recursive descent from tokens to the document value are NOT modelled in Coq: the generator produces the document value and its text together (harness/verilog_gen.py writer, harness/verilog_doc.py converter are trusted glue); the document-level WRITER is modelled (Fmt/VEmit.v) and tied to Composer by harness/verilog_emit.py, whose reader of the composer\'s output text (tokens -> vdoc) and netlist -> ordered value converter are trusted glue',
             'CPython 3.12 list/dict semantics',
         ],
         'theorems': theorems, 'print_assumptions': proof['assumptions'][-2500:],
@@ -506,6 +518,11 @@ def run(prop, tier, seed, replay):
             'compared': r.doc['compared'], 'disagreements': r.doc['disagreements'],
             'skipped_outside_modelled_subset': dict(r.doc['unsupported']), 'skipped_not_expressible_as_vdoc': dict(r.doc['inexpressible']),
             'implementation_outcomes': dict(r.doc['outcomes']), 'wild_mutations_applied': dict(sorted(r.doc['wild_mutations'].items()))},
+        'writer_correspondence': {
+            'what': 'C04: every netlist the run writes (generated designs, corpus, bundled files, transforms, options) as an ordered netlist value -> '
+                    'extracted VEmit.emit vs the text of the real Composer read token by token into a vdoc (harness/verilog_emit.py): documents or '
+                    'exception classes compared; rt_check (VEmit.v, proved sound in Props/C04.v) evaluated on each and compared with the real write/read cycle',
+            **{k: (dict(v) if isinstance(v, collections.Counter) else v) for k, v in r.emit.items()}},
         'generator_feature_histogram': dict(sorted(r.feat.items())),
         'outcome_histogram': dict(sorted(r.stats.items())),
         'known_finding_hits': dict(r.known_hits), 'notes': r.notes,
@@ -513,7 +530,7 @@ def run(prop, tier, seed, replay):
     assumptions = [
         'inputs are in the property class: ranges msb>=lsb, module ports based at 0, expression width <= port width, nets selected inside their declared range',
         'cable names identify cables within a module (the writer compares names)',
-        'C04_full is a Definition, not a theorem (document-level writer not modelled); for C06 see the header of coq/theories/Props/C06.v for what is proved at document level',
+        'C04_full and C04_emit_roundtrip_full are Definitions, not theorems (the round trip is certified netlist by netlist by the verified checker rt_check); for C06 see the header of coq/theories/Props/C06.v for what is proved at document level',
     ]
     common.write_evidence(prop, tier, seed, coverage, wall, len(r.rep.violations), assumptions)
     print('%s %s: %d programs (%d distinct non-trivial designs), %d oracle evaluations, %d mechanism cases (%d disagreements), '
@@ -522,6 +539,11 @@ def run(prop, tier, seed, replay):
               prop, tier, r.n_programs, len(r.distinct), r.n_eval, r.mech.get('cases', 0), r.mech.get('disagreements', 0),
               r.doc['compared'], r.doc['disagreements'], sum(r.doc['unsupported'].values()),
               dict(r.known_hits), 'ok' if (ok and proof['ok']) else 'BROKEN', len(theorems), wall))
+    if prop == 'C04':
+        print('C04 writer model: %d written netlists (%d modules) emit vs Composer, %d disagreements; re-read compared on %d; rt_check true on %d, writable %d; '
+              'outside the modelled subset %d, not expressible %d' % (
+                  r.emit['compared'], r.emit['modules_compared'], r.emit['disagreements'], r.emit['reread_compared'], r.emit['rt_check true'], r.emit['writable'],
+                  sum(r.emit['skipped_outside_modelled_subset'].values()), sum(r.emit['skipped_not_expressible_as_nv'].values())))
     return r.rep.exit_code()
 
 
